@@ -63,6 +63,17 @@ def show(grid):
                                             " /" + "".join("." if st == sgr.DEFAULT else "^" for _, st in row)) for row in grid]
 
 
+def first_difference(got, want):
+    for r, (g, w) in enumerate(zip(got, want)):
+        for c, (a, b) in enumerate(zip(g, w)):
+            if a != b:
+                def d(cell):
+                    ch, (fg, bg, st) = cell
+                    return "%r fg=%s bg=%s styles=%s" % (ch, fg, bg, sorted(sgr.STYLE_NAME.get(x, x) for x in st))
+                return "; first difference at row %d column %d: shown %s, expected %s" % (r, c, d(a), d(b))
+    return ""
+
+
 class Pool:
     def __init__(self, it):
         self.it = it
@@ -79,6 +90,12 @@ class Pool:
             raise AnalysisError("FmtStr + FmtStr not evaluable: %s" % (r,))
         return r[1]
 
+    def cat_all(self, parts):
+        out = parts[0]
+        for p in parts[1:]:
+            out = self.cat(out, p)
+        return out
+
     def arrays(self, h, w, tier):
         fs, cat = self.fs, self.cat
         out = [
@@ -92,6 +109,10 @@ class Pool:
             ("['', 'a'] + blanks on green", lambda: [fs(""), cat(fs("a"), fs(" " * (w - 1), bg="green")) if w > 1 else fs("a")]),
             ("str rows ['ab', 'c']", lambda: ["ab"[:w], "c"]),
             ("fsarray(['a', '', 'abc'])", lambda: self.fsarray(["a", "", "abc"[:w]], w)),
+            ("one cell per style, then colours", lambda: [
+                self.cat_all([fs("b", bold=True), fs("d", dark=True), fs("i", italic=True), fs("u", underline=True), fs("k", blink=True),
+                              fs("v", invert=True)][:w]),
+                self.cat_all([fs("r", fg="red"), fs("g", bg="green"), fs("y", fg="yellow", bg="blue", invert=True)][:w])]),
             ("two-run rows wider than the screen", lambda: [cat(fs("ab", "red"), fs("cdefgh"[:w], "underline")) for _ in range(max(1, h - 1))]),
         ]
         if tier == "thorough":
@@ -143,8 +164,8 @@ def run_history(src_it, h, w, steps, hide_cursor):
         if scr.scrolls:
             return ("F3-never-scrolls", hist, "the screen scrolled %d line(s); it shows %s" % (scr.scrolls, show(scr.rows)))
         if scr.rows != want:
-            return ("F1-screen-equals-array", hist, "the screen shows %s, the array's visible part is %s ('^' marks formatted cells)"
-                    % (show(scr.rows), show(want)))
+            return ("F1-screen-equals-array", hist, "the screen shows %s, the array's visible part is %s ('^' marks formatted cells)%s"
+                    % (show(scr.rows), show(want), first_difference(scr.rows, want)))
         if (scr.r, scr.c) != cur or scr.pending:
             return ("F2-cursor-at-cursor-pos", hist, "the cursor is at %s%s" % ((scr.r, scr.c), " with a deferred wrap pending" if scr.pending else ""))
         if scr.alt is None:
